@@ -10,7 +10,7 @@ CONSTANTS
   AllowNone = FALSE
   LeafChoices <- LeafQuick
   Kinds = {"graph"}
-  MaxOutsCard = 2
+  MaxOutsCard = 1
   EmitOn = TRUE
 INIT Init
 NEXT Next
